@@ -13,15 +13,17 @@ import numpy as np
 from harness import core
 
 # ---- concrete tables behind the opaque content ids ------------------------------------------------------------
-KINDS = {"A": "Array2D", "B": "Array2D", "C": "Array2D", "D": "Array2D", "M": "Mask2D", "N": "Mask2D",
-         "K": "Kernel2D", "L": "Array1D", "Q": "Mask1D"}
+KINDS = {"A": "Array2D", "B": "Array2D", "C": "Array2D", "D": "Array2D", "E": "Array2D", "M": "Mask2D", "N": "Mask2D",
+         "K": "Kernel2D", "J": "Kernel2D", "L": "Array1D", "Q": "Mask1D"}
+TRIPLES = [("A", "J", "E"), ("E", "J", "E")]  # (data, psf, noise map): same shape, positive noise, psf summing to one exactly
 ANISO = {"B", "N"}
 SCALES = {"A": (0.5, 0.5), "B": (1.0, 2.0), "C": (0.1, 0.1), "D": (3.0, 3.0), "M": (0.25, 0.25), "N": (0.5, 1.5),
-          "K": (1.0, 1.0), "L": (0.2,), "Q": (2.0,)}
+          "K": (1.0, 1.0), "L": (0.2,), "Q": (2.0,), "E": (0.5, 0.5), "J": (0.5, 0.5)}
 PATHS = {"nested": ("sub", "new", "a.fits"), "existing": ("ex", "b.fits"), "bare": ("c.fits",),
-         "nested2": ("sub", "other", "deep", "d.fits"), "existing2": ("ex", "e.fits"), "bare2": ("f.fits",)}
+         "nested2": ("sub", "other", "deep", "d.fits"), "existing2": ("ex", "e.fits"), "bare2": ("f.fits",),
+         "img_data": ("img", "data.fits"), "img_psf": ("img", "psf", "psf.fits"), "img_noise": ("noise_map.fits",)}
 DIROF = {"nested": {"sub", "sub/new"}, "existing": {"ex"}, "bare": set(), "nested2": {"sub", "sub/other", "sub/other/deep"},
-         "existing2": {"ex"}, "bare2": set()}
+         "existing2": {"ex"}, "bare2": set(), "img_data": {"img"}, "img_psf": {"img", "img/psf"}, "img_noise": set()}
 
 
 def _content(cid):
@@ -42,6 +44,10 @@ def _content(cid):
         return np.array([[True, False, False, True], [False, False, True, True]]), None
     if cid == "K":
         return np.array([[1.0, 2.0, 3.0], [-4.0, 5.0, 6.0], [7.0, 8.0, 9.5]]), None
+    if cid == "E":
+        return np.array([[0.5, 2.0, 0.25], [4.0, 1.5, 3.0]]), None
+    if cid == "J":
+        return np.array([[0.0625, 0.125, 0.0625], [0.125, 0.25, 0.0], [0.0625, 0.25, 0.0625]]), None
     if cid == "L":
         return np.array([1.0, -2.0, 3.5, 4.0, 50.0]), None
     if cid == "Q":
@@ -204,6 +210,70 @@ def execute(history, contents, pathids):
                 except Exception as e:
                     r["cid"], r["flipped"], r["extra_ok"], r["err"] = "error:" + type(e).__name__, False, True, str(e)[:100]
                 r["files"], _ = _scan(root, pathids, contents)
+            elif a == "WriteMulti":
+                from astropy.io import fits
+
+                parts = PATHS[ev["p"]]
+                fp = parts[0] if len(parts) == 1 else os.path.join(root, *parts)
+                if ev["n1"] <= len(hdus) and ev["n2"] <= len(hdus):
+                    h1, h2 = hdus[ev["n1"] - 1][1], hdus[ev["n2"] - 1][1]
+                    if os.path.dirname(fp):
+                        os.makedirs(os.path.dirname(fp), exist_ok=True)
+                    fits.HDUList([fits.PrimaryHDU(h1.data, h1.header), fits.ImageHDU(h2.data, h2.header)]).writeto(fp, overwrite=True)
+                r["files"], r["dirs"] = _scan(root, pathids, contents)
+            elif a == "ReadHdu":
+                parts = PATHS[ev["p"]]
+                fp = parts[0] if len(parts) == 1 else os.path.join(root, *parts)
+                try:
+                    import autoarray as aa
+
+                    k = ev["kind"]
+                    if k == "Array2D":
+                        o = aa.Array2D.from_fits(file_path=fp, pixel_scales=1.0, hdu=ev["hdu"])
+                    elif k == "Kernel2D":
+                        o = aa.Kernel2D.from_fits(file_path=fp, hdu=ev["hdu"], pixel_scales=1.0)
+                    elif k == "Mask2D":
+                        o = aa.Mask2D.from_fits(file_path=fp, pixel_scales=1.0, hdu=ev["hdu"])
+                    elif k == "Array1D":
+                        o = aa.Array1D.from_fits(file_path=fp, pixel_scales=1.0, hdu=ev["hdu"])
+                    else:
+                        o = aa.Mask1D.from_fits(file_path=fp, pixel_scales=1.0, hdu=ev["hdu"])
+                    cid, fl = _identify(_native_values(k, o), contents)
+                    r["cid"], r["flipped"] = cid, bool(fl)
+                except Exception as e:
+                    r["cid"], r["flipped"], r["err"] = "error:" + type(e).__name__, False, str(e)[:100]
+                r["files"], _ = _scan(root, pathids, contents)
+            elif a == "WriteImaging":
+                import autoarray as aa
+
+                ok, err = True, ""
+                fps = {}
+                for pid in ("img_data", "img_psf", "img_noise"):
+                    parts = PATHS[pid]
+                    fps[pid] = parts[0] if len(parts) == 1 else os.path.join(root, *parts)
+                try:
+                    ds = aa.Imaging(data=_obj(ev["cd"]), noise_map=_obj(ev["cn"]), psf=_obj(ev["ck"]), check_noise_map=False)
+                    ds.output_to_fits(data_path=fps["img_data"], psf_path=fps["img_psf"], noise_map_path=fps["img_noise"], overwrite=bool(ev["ow"]))
+                except Exception as e:
+                    ok, err = False, type(e).__name__
+                r["ok"], r["err"] = ok, err
+                r["files"], r["dirs"] = _scan(root, pathids, contents)
+            elif a == "ReadImaging":
+                import autoarray as aa
+
+                fps = {}
+                for pid in ("img_data", "img_psf", "img_noise"):
+                    parts = PATHS[pid]
+                    fps[pid] = parts[0] if len(parts) == 1 else os.path.join(root, *parts)
+                try:
+                    ds = aa.Imaging.from_fits(pixel_scales=0.5, data_path=fps["img_data"], noise_map_path=fps["img_noise"], psf_path=fps["img_psf"])
+                    for nm, val in (("data", ds.data.native.array), ("psf", ds.psf.native.array), ("noise", ds.noise_map.native.array)):
+                        cid, fl = _identify(np.asarray(val), contents)
+                        r[nm + "_cid"], r[nm + "_flipped"] = cid, bool(fl)
+                except Exception as e:
+                    for nm in ("data", "psf", "noise"):
+                        r[nm + "_cid"], r[nm + "_flipped"] = "error:" + type(e).__name__, False
+                    r["err"] = str(e)[:100]
             elif a == "HduOut":
                 hdus.append((ev["c"], _obj(ev["c"]).hdu_for_output))
             elif a == "HduIn":
@@ -248,6 +318,7 @@ def _defs(contents, pathids, maxhdus, maxdepth):
     return "\n".join([
         f"MCContents == {sset(contents)}", f"MCAniso == {sset(set(contents) & ANISO)}", f"MCKindOf == {kind}",
         f"MCPaths == {sset(pathids)}", f"MCDirOf == {dirof}", 'MCInitDirs == {"ex"}',
+        "MCTriples == {" + ", ".join("<<%s, %s, %s>>" % tuple(q(x) for x in t) for t in TRIPLES if all(x in contents for x in t)) + "}",
         f"MCMaxHdus == {maxhdus}", f"MCMaxDepth == {maxdepth}"])
 
 
@@ -258,6 +329,7 @@ CFG_CONST = """CONSTANTS
   Paths <- MCPaths
   DirOf <- MCDirOf
   InitDirs <- MCInitDirs
+  ImagingTriples <- MCTriples
   MaxHdus <- MCMaxHdus
   MaxDepth <- MCMaxDepth
 """
@@ -269,6 +341,7 @@ INVARIANT FilesHaveDirectories
 PROPERTY NoSilentOverwrite
 PROPERTY OnlyWriteTouchesFiles
 PROPERTY FailedWriteChangesNothing
+PROPERTY ImagingOutputStopsAtFirstFailure
 """
 CFG_SIM = CFG_CONST + """SPECIFICATION Spec
 INVARIANT TypeOK
@@ -309,7 +382,7 @@ def _validate(ctx, recs, contents, pathids, tag):
         rec = recs[rj["id"]]
         # the episode up to the rejected record is the replayable history
         s = max(k for k in starts if k <= rj["id"])
-        hist = [{k: v for k, v in r.items() if k in ("a", "b", "c", "p", "ow", "kind", "n")} for r in recs[s : rj["id"] + 1]]
+        hist = [{k: v for k, v in r.items() if k in ("a", "b", "c", "p", "ow", "kind", "n", "n1", "n2", "hdu", "cd", "ck", "cn")} for r in recs[s : rj["id"] + 1]]
         ctx.violation(rj["sig"], f"{rec['a']} {json.dumps({k: v for k, v in rec.items() if k not in ('files', 'dirs', 'id')})}: failed {rj['clauses']}",
                       {"history": hist, "contents": list(contents), "paths": list(pathids), "record": rec,
                        "failed_clauses": rj["clauses"], "spec_wanted": rj.get("want")}, cls=",".join(rj["clauses"]))
@@ -335,8 +408,16 @@ def _random_histories(rng, n, length, contents, pathids):
             elif x < 0.80:
                 h.append({"a": "HduOut", "c": str(rng.choice(contents))})
                 nh += 1
-            elif x < 0.93 and nh:
+            elif x < 0.88 and nh:
                 h.append({"a": "HduIn", "kind": None, "n": int(rng.integers(1, nh + 1))})
+            elif x < 0.91 and nh:
+                p = str(rng.choice(pathids))
+                h.append({"a": "WriteMulti", "p": p, "n1": int(rng.integers(1, nh + 1)), "n2": int(rng.integers(1, nh + 1))})
+                h.append({"a": "ReadHdu", "kind": None, "p": p, "hdu": 1})
+            elif x < 0.95 and all(q in pathids for q in ("img_data", "img_psf", "img_noise")):
+                t = TRIPLES[int(rng.integers(0, len(TRIPLES)))]
+                h.append({"a": "WriteImaging", "cd": t[0], "ck": t[1], "cn": t[2], "ow": bool(rng.random() < 0.6)})
+                h.append({"a": "ReadImaging"})
             else:
                 flip = not flip
                 h.append({"a": "SetFlip", "b": flip})
@@ -353,18 +434,40 @@ def _fill_kinds(history):
 
 def execute_resolving(history, contents, pathids):
     """like execute, but resolves kind=None of Read/HduIn to the writer's own kind (or Kernel2D for Array2D half the time)."""
-    fsmodel, hd = {}, []
+    fsmodel, extmodel, hd = {}, {}, []
     out = []
     k = 0
     for ev in history:
         ev = dict(ev)
         if ev["a"] == "Start":
-            fsmodel, hd = {}, []
+            fsmodel, extmodel, hd = {}, {}, []
         if ev["a"] == "Write":
             if not (ev["p"] in fsmodel and not ev["ow"]):
                 fsmodel[ev["p"]] = ev["c"]
+                extmodel.pop(ev["p"], None)
         if ev["a"] == "HduOut":
             hd.append(ev["c"])
+        if ev["a"] == "WriteMulti":
+            if ev["n1"] <= len(hd) and ev["n2"] <= len(hd):
+                fsmodel[ev["p"]] = hd[ev["n1"] - 1]
+                extmodel[ev["p"]] = hd[ev["n2"] - 1]
+        if ev["a"] == "WriteImaging":
+            for pid, c in zip(("img_data", "img_psf", "img_noise"), (ev["cd"], ev["ck"], ev["cn"])):
+                if pid in fsmodel and not ev["ow"]:
+                    break
+                fsmodel[pid] = c
+                extmodel.pop(pid, None)
+        if ev["a"] == "ReadImaging" and not all(q in fsmodel for q in ("img_data", "img_psf", "img_noise")):
+            continue
+        if ev["a"] == "ReadImaging" and not (KINDS[fsmodel["img_data"]] == "Array2D" and KINDS[fsmodel["img_noise"]] == "Array2D"
+                                             and fsmodel["img_noise"] == "E" and KINDS[fsmodel["img_psf"]] == "Kernel2D"
+                                             and _content(fsmodel["img_data"])[0].shape == _content("E")[0].shape):
+            continue
+        if ev["a"] == "ReadHdu" and ev.get("kind") is None:
+            c = extmodel.get(ev["p"])
+            if c is None:
+                continue
+            ev["kind"] = KINDS[c]
         if ev["a"] == "Read" and ev.get("kind") is None:
             c = fsmodel.get(ev["p"])
             if c is None:
@@ -402,7 +505,12 @@ def run(ctx):
                   "simulation_depth": dsim - 1, "random_histories": 60 if quick else 600, "random_history_length": 40}
     # 1. exhaustive model checking of the bounded machine
     res = ctx.tlc("Fits", CFG_MC, defs=_defs(contents, pathids, 2, depth_mc), tag="MC_Fits", timeout=1500, coverage=True)
+    # second exhaustive configuration: imaging datasets (three files per call, partial failure) and multi-extension files
+    res2 = ctx.tlc("Fits", CFG_MC, defs=_defs(["A", "E", "J"], ["img_data", "img_psf", "img_noise", "existing"], 2, depth_mc),
+                   tag="MC_Fits_imaging", timeout=1500, coverage=True)
     ctx.exhaustive = True
+    contents = sorted(set(contents) | {"E", "J"})
+    pathids = pathids + ["img_data", "img_psf", "img_noise"]
     # 2. simulation -> behaviours -> replay into the real code
     simdir = ctx.work / "sim"
     simdir.mkdir(exist_ok=True)
